@@ -82,8 +82,13 @@ def run(chk, replay=None):
                         e = {"ev": "Unmarshal", "fmt": "ReadCd", "bytes": list(buf), "out": {}, "exc": "",
                              "par": {"est": est, "mcsb": mcsb, "c2ei": c2ei, "scsb": scsb, "tl": tl, "lba": lba}}
                         try:
-                            r = K.unmarshall_datain(bytearray(buf), lba=lba, tl=tl, est=est, mcsb=mcsb, c2ei=c2ei, scsb=scsb)
+                            live = bytearray(buf)
+                            K.unmarshall_datain(live, lba=lba, tl=tl, est=est, mcsb=mcsb, c2ei=c2ei, scsb=scsb)
+                            # decoded a second time from the same buffer object (cmd.unmarshall() again): same answer
+                            r = K.unmarshall_datain(live, lba=lba, tl=tl, est=est, mcsb=mcsb, c2ei=c2ei, scsb=scsb)
                             e["out"] = flatten({str(k): v for k, v in r.items()}) or {"#empty": []}
+                            if bytes(live) != bytes(buf):
+                                e["exc"] = "DecoderChangedTheBuffer"
                         except Exception as ex:
                             e["exc"] = type(ex).__name__
                             e["out"] = {"#empty": []}
